@@ -19,7 +19,7 @@ func init() {
 			"(a) upload and download chains are separate end to end (valve counter → swap → queue → status → stored credit key) with no value flow from one direction's locations to the other's, and the status is filed under the UID of the valve's owner; " +
 			"(b) collection is an atomic swap-to-zero called only by the two queue-update functions, queue accumulation/insert and the snapshot-and-reset at commit are each one critical section of the queue lock; " +
 			"(e) TERMINATE verdicts are produced for missing bucket, credit <= 0 (both directions) and expiry, in the same transaction as the credit writes, and each TERMINATE for an active user reaches closeAllSessions, which closes every session.",
-		NotDecided: "(c) arithmetic totals at quiescence ('stored = initial − carried'), loss when UploadStatus itself fails, traffic between the final collection and closeAllSessions — these need quiescence and history reasoning.",
+		NotDecided:  "(c) arithmetic totals at quiescence ('stored = initial − carried'), loss when UploadStatus itself fails, traffic between the final collection and closeAllSessions — these need quiescence and history reasoning.",
 		Assumptions: []string{"atomic.SwapInt64/AddInt64 semantics", "bbolt Update runs its closure in one transaction"},
 	})
 }
@@ -35,7 +35,12 @@ func runC16(c *Ctx) {
 // isValveCall: invoke of Valve.<method> on the switchboard's valve
 func isValveCall(i ssa.Instruction, method string) (*ssa.Call, bool) {
 	call, ok := i.(*ssa.Call)
-	if !ok || !call.Call.IsInvoke() || call.Call.Method.Name() != method {
+	// the interface method under its current spelling (the implementation on LimitedValve is the rules' subject)
+	cur := curName("internal/multiplex", "LimitedValve."+method)
+	if cur == "" {
+		cur = method
+	}
+	if !ok || !call.Call.IsInvoke() || call.Call.Method.Name() != cur {
 		return nil, false
 	}
 	if !strings.HasSuffix(typeStr(call.Call.Value.Type()), "multiplex.Valve") {
